@@ -231,6 +231,8 @@ class Channel(BaseChannel):
         self.check_for_exceptions()
 
         if self.is_closed:
+            # The reason may have been recorded after the check above.
+            self.check_for_exceptions()
             raise AMQPChannelError('channel closed')
 
     def check_for_exceptions(self):
